@@ -38,6 +38,8 @@ def check(run):
         return [c for c in fn.calls() if (q.callee_name(c) or '').endswith(suffix)]
 
     sortedness_rules(run)
+    run.clause('equal expiries complete in the order the timers were ARMED: a timer enters the queue (behind its equals) only when it is armed - expires_at / expires_after; any other function that queues it re-inserts it behind timers armed later')
+    engines.r3_caller_table(run, 'sim::asio::io_context::add_timer', {T + '::expires_at': 'arming', T + '::expires_after': 'arming'}, rule='R3', instance='queued-only-when-armed')
     run.clause('R4 cancel: early 0 when expired; m_expired=true then remove_timer(this); 1 exactly on the path that fires the abort')
     cn = fx.fn1(T + '::cancel')
     run.touch(cn)
